@@ -290,7 +290,7 @@ func (r *Run) Finish() {
 	}
 
 	if r.Replay == "" {
-		evPath := filepath.Join(VerifRoot, "evidence", r.Property+".json")
+		evPath := filepath.Join(envOr("VERIF_EVIDENCE_DIR", filepath.Join(VerifRoot, "evidence")), r.Property+".json")
 		_ = os.MkdirAll(filepath.Dir(evPath), 0o755)
 		b, err := json.MarshalIndent(ev, "", " ")
 		if err != nil {
@@ -333,7 +333,7 @@ func writeArtefact(property string, v Violation) string {
 		b = []byte(fmt.Sprintf("{\"property\":%q,\"class\":%q,\"summary\":%q}", property, v.Class, v.Summary))
 	}
 	sum := sha256.Sum256(b)
-	dir := filepath.Join(VerifRoot, "replays", property)
+	dir := filepath.Join(envOr("VERIF_REPLAY_DIR", filepath.Join(VerifRoot, "replays")), property)
 	_ = os.MkdirAll(dir, 0o755)
 	path := filepath.Join(dir, hex.EncodeToString(sum[:6])+".json")
 	_ = os.WriteFile(path, append(b, '\n'), 0o644)
